@@ -251,6 +251,32 @@ def _rendezvous(spec, tid):
 def _nested(spec, tid):
     """Create an executor inside this worker and run sub-tasks on it."""
     out = {"depth": _depth(), "pid": os.getpid()}
+    if spec.get("via_thread"):
+        # the nested executor is created and used from a helper thread of this worker, not its main thread
+        import threading
+
+        box = {}
+        sub = dict(spec, via_thread=False)
+
+        def body():
+            try:
+                box["r"] = _nested(sub, tid)
+            except BaseException as e:  # noqa
+                box["e"] = e
+
+        th = threading.Thread(target=body, name="lv-helper")
+        th.start()
+        th.join()
+        if "e" in box:
+            raise box["e"]
+        box["r"][2]["via_thread"] = True
+        return box["r"]
+    if spec.get("default_method"):
+        # the start method is selected implicitly through loky's process-wide default
+        from loky.backend import context as lctx
+
+        lctx.set_start_method(spec["default_method"], force=True)
+        out["default_method"] = spec["default_method"]
     kw = dict(spec.get("kw", {}))
     try:
         if spec.get("kind", "reusable") == "reusable":
@@ -273,6 +299,10 @@ def _nested(spec, tid):
         _log("nested_construct", tid=tid, res=out["construct"], depth=out["depth"])
         return ["nested", tid, out]
     _log("nested_construct", tid=tid, res="ok", depth=out["depth"])
+    if spec.get("default_method"):
+        from loky.backend import context as lctx
+
+        lctx.set_start_method(None, force=True)
     futs = []
     for i, s in enumerate(spec.get("sub", [])):
         stid = "%s/%d" % (tid, i)
